@@ -138,6 +138,15 @@ func goid() uint64 {
 
 func (p *perturb) hit(key uint64) {
 	n := atomic.AddInt64(&p.calls, 1)
+	switch p.policy {
+	case "light": // high-volume renders: count only
+		return
+	case "block": // stall the worker that picked up this batch (every batch of the blocker render)
+		if n%100 == 1 {
+			time.Sleep(15 * time.Millisecond)
+		}
+		return
+	}
 	g := goid()
 	p.mu.Lock()
 	gi, ok := p.gids[g]
@@ -227,6 +236,13 @@ type c09Result struct {
 }
 
 func c09Render(spec c09Spec, policy string, seed uint64, dir string, tag string) c09Result {
+	if strings.HasPrefix(tag, "reuse-") && spec.Sink != "mem" {
+		// history: an earlier, larger render went to the same output path
+		big := spec
+		big.Cells = spec.Cells * 2
+		c09Render(big, "light", seed, dir, tag[len("reuse-"):])
+		tag = tag[len("reuse-"):]
+	}
 	pt := &perturb{policy: policy, seed: seed, gids: map[uint64]int{}}
 	res := c09Result{Spec: spec}
 	h := sha256.New()
@@ -314,7 +330,9 @@ func c09Render(spec c09Spec, policy string, seed uint64, dir string, tag string)
 			h.Write([]byte("unreadable:" + err.Error()))
 		}
 	}
-	os.Remove(path)
+	if !strings.HasPrefix(policy, "light") { // the "earlier render" of a reuse history leaves its file in place
+		os.Remove(path)
+	}
 	res.Digest = hex.EncodeToString(h.Sum(nil)[:12])
 	res.Fingerprint = fmt.Sprintf("%016x", pt.fp)
 	res.Evals = pt.calls
@@ -343,9 +361,33 @@ func childC09(args []string) {
 	}
 	cfg := fmt.Sprintf("GOMAXPROCS=%d policy=%s history=%d concurrent=%d", runtime.GOMAXPROCS(0), policy, history, conc)
 	var out []c09Result
-	if conc <= 1 {
+	if policy == "pressure" {
+		// all specs at once, unperturbed but many, next to a render whose evaluations stall every worker: the shared
+		// evaluation queue fills up
+		out = make([]c09Result, len(specs))
+		var wg sync.WaitGroup
+		wg.Add(1)
+		go func() {
+			defer wg.Done()
+			c09Render(c09Spec{"sphere", "mc-uniform", 40, "mem"}, "block", seed, dir, "blocker")
+		}()
 		for i, s := range specs {
-			r := c09Render(s, policy, seed+uint64(i), dir, strconv.Itoa(i))
+			wg.Add(1)
+			go func(i int, s c09Spec) {
+				defer wg.Done()
+				r := c09Render(s, "light", seed+uint64(i), dir, strconv.Itoa(i))
+				r.Config = cfg + " (queue pressure)"
+				out[i] = r
+			}(i, s)
+		}
+		wg.Wait()
+	} else if conc <= 1 {
+		for i, s := range specs {
+			tag := strconv.Itoa(i)
+			if history > 0 {
+				tag = "reuse-" + tag
+			}
+			r := c09Render(s, policy, seed+uint64(i), dir, tag)
 			r.Config = cfg
 			out = append(out, r)
 		}
@@ -442,6 +484,11 @@ func checkC09(c *Ctx) {
 			jobs = append(jobs, job{cf, specs[i:j], uint64(ci*1000 + i)})
 		}
 	}
+	// queue pressure (non-race binary, light wrappers): a reference render alone, then 8 of the same at once under stalled workers
+	heavy := c09Spec{"sphere", "mc-uniform", c.Pick(150, 260), "mem"}
+	jobs = append(jobs, job{cfg{16, 0, 1, "light"}, []c09Spec{heavy}, 900001})
+	jobs = append(jobs, job{cfg{16, 0, 8, "pressure"}, []c09Spec{heavy, heavy, heavy, heavy, heavy, heavy, heavy, heavy}, 900002})
+	jobs = append(jobs, job{cfg{4, 0, 8, "pressure"}, []c09Spec{heavy, heavy, heavy, heavy, heavy, heavy, heavy, heavy}, 900003})
 	var mu sync.Mutex
 	digests := map[string]map[string]c09Result{} // spec -> digest -> first result
 	fps := map[string]map[string]bool{}
@@ -460,7 +507,11 @@ func checkC09(c *Ctx) {
 			b, _ := json.Marshal(s)
 			args = append(args, string(b))
 		}
-		res := runChild(bin, "c09-run", args, []string{fmt.Sprintf("GOMAXPROCS=%d", j.cf.procs), "GORACE=halt_on_error=0"}, 20*time.Minute)
+		useBin := bin
+		if j.cf.policy == "light" || j.cf.policy == "pressure" {
+			useBin = "" // volume, not race detection
+		}
+		res := runChild(useBin, "c09-run", args, []string{fmt.Sprintf("GOMAXPROCS=%d", j.cf.procs), "GORACE=halt_on_error=0"}, 20*time.Minute)
 		for _, rr := range parseRaces(res.Out) {
 			c.Count("race_reports", int64(rr.Count))
 			c.raceJudge(rr)
